@@ -17,6 +17,7 @@ PROPERTY_PROFILE = {
     "C05": "cursor",
     "C06": "cursor",
     "C07": "fail",
+    "C12": "merge",
     "C13": "txn",
     "C14": "connect",
     "C15": "vars",
